@@ -357,7 +357,7 @@ class GetItem(Case):
 class SetItem(Case):
     prop = 'C08'
     name = 'C08.setitem'
-    bounds = 'b[i]=v, b[i:j:k]=bits, b[i:j]=int that fits, b[list]=bits (distinct indices, length<=3) for the same index expressions as C08.getitem; value bits symbolic; everything outside the selection must be unchanged'
+    bounds = 'b[i]=v, b[i:j:k]=bits, b[i:j]=int that fits, b[list]=bits (distinct indices, length<=3), value given as a distinct Bits object, value being the target itself (aliasing, n<=4) for the same index expressions as C08.getitem; value bits symbolic; everything outside the selection must be unchanged'
     timeout_s = 300
     max_paths = 20000
 
@@ -371,6 +371,9 @@ class SetItem(Case):
                     yield dict(kind='slice', n=n, step=k, start=i)
             yield dict(kind='sliceint', n=n)
             yield dict(kind='list', n=n)
+            yield dict(kind='bitsval', n=n)
+            if n <= 4:
+                yield dict(kind='alias', n=n)
 
     def mk(self, shape, src):
         return (src.int('a', shape['n']), src.int('v', max(3, shape['n'])))
@@ -384,6 +387,12 @@ class SetItem(Case):
             return [(shape['start'], j, shape['step']) for j in rng]
         if shape['kind'] == 'sliceint':
             return [(i, j, None) for i in range(0, n) for j in range(i + 1, n + 1)]
+        if shape['kind'] == 'bitsval':
+            # value given as a Bits object (a distinct one): contiguous, stepped and reversed selections
+            return [(i, j, k) for i in (None, 0, 1) for j in (None, n, n - 1) for k in (None, 1, -1, 2, -2)]
+        if shape['kind'] == 'alias':
+            # the assigned value is the target vector itself: whole-vector selections in every order
+            return [(None, None, -1), (None, None, 1)] + [list(t) for t in itertools.permutations(range(n), n)]
         out = []
         for L in range(1, 4):
             out += [list(t) for t in itertools.permutations(range(n), L)]
@@ -403,6 +412,19 @@ class SetItem(Case):
             elif shape['kind'] == 'sliceint':
                 L = e[1] - e[0]
                 a[slice(*e)] = args[1] & M(L)
+            elif shape['kind'] == 'bitsval':
+                L = len(range(n)[slice(*e)])
+                if L == 0:
+                    out.append(st(a))
+                    continue
+                val = Bits(args[1] & M(L), L)
+                a[slice(*e)] = val
+                out.append(st(val))
+            elif shape['kind'] == 'alias':
+                if isinstance(e, tuple):
+                    a[slice(*e)] = a
+                else:
+                    a[e] = a
             else:
                 a[e] = [(args[1] >> t) & 1 for t in range(len(e))]
             out.append(st(a))
@@ -416,12 +438,20 @@ class SetItem(Case):
             bits = _bl(a0, n)
             if shape['kind'] == 'int':
                 idx = [range(n)[e]]
-            elif shape['kind'] in ('slice', 'sliceint'):
+            elif shape['kind'] in ('slice', 'sliceint', 'bitsval') or isinstance(e, tuple):
                 idx = list(range(n)[slice(*e)])
             else:
                 idx = e
-            for t, i in enumerate(idx):
-                bits[i] = (v >> t) & 1
+            if shape['kind'] == 'alias':
+                old = list(bits)
+                for t, i in enumerate(idx):
+                    bits[i] = old[t]          # the value is read before anything is written
+            else:
+                for t, i in enumerate(idx):
+                    bits[i] = (v >> t) & 1
+            if shape['kind'] == 'bitsval' and len(idx) > 0:
+                L = len(idx)
+                out.append([v & M(L), L, M(L)])      # the value object itself must be unchanged
             out.append([_val(bits), n, M(n)])
         return dict(out=out)
 
